@@ -7,3 +7,12 @@ set -u
 if ! ls "${MIRI_SYSROOT:-$HOME/.cache/miri}"/lib/rustlib/armv7-unknown-linux-gnueabihf >/dev/null 2>&1; then
   CARGO_NET_OFFLINE=true cargo +nightly miri setup --target armv7-unknown-linux-gnueabihf >/dev/null 2>&1 || echo "setup-extra: miri sysroot for armv7 failed (built lazily on first use)"
 fi
+
+# --- rt-alloc (C24): Miri sysroots for wasm32-unknown-unknown (no_std: the real cabi_realloc is only compiled
+# there) and for the native target (generated cabi_dealloc item). Both are also built lazily by `cargo miri run`.
+if ! ls "${MIRI_SYSROOT:-$HOME/.cache/miri}"/lib/rustlib/wasm32-unknown-unknown >/dev/null 2>&1; then
+  MIRI_NO_STD=1 CARGO_NET_OFFLINE=true cargo +nightly miri setup --target wasm32-unknown-unknown >/dev/null 2>&1 || echo "setup-extra: miri sysroot for wasm32-unknown-unknown failed (built lazily on first use)"
+fi
+if ! ls "${MIRI_SYSROOT:-$HOME/.cache/miri}"/lib/rustlib/x86_64-unknown-linux-gnu >/dev/null 2>&1; then
+  CARGO_NET_OFFLINE=true cargo +nightly miri setup >/dev/null 2>&1 || echo "setup-extra: native miri sysroot failed (built lazily on first use)"
+fi
